@@ -1,0 +1,124 @@
+//go:build verif
+
+package fuzzer
+
+import (
+	pAst "github.com/smarthome-go/homescript/v3/homescript/parser/ast"
+)
+
+// Specification vocabulary and contracts checked by /verif/hvc (build tag
+// verif only; see /verif/DESIGN.md, C20). Every rewrite of the transformer
+// that is under contract is an instance of one of the equations below, which
+// are proved over the shared operator semantics (parser/ast VIntOp ...: 64-bit
+// two's-complement integers, IEEE-754 doubles).
+
+/*@ assume-pure analyzer/ast.AnalyzedExpression.Type nonnil @*/
+
+// VReversedCmp: the comparison that holds of (b, a) exactly when op holds of (a, b).
+func VReversedCmp(op pAst.InfixOperator) pAst.InfixOperator {
+	switch op {
+	case pAst.LessThanInfixOperator:
+		return pAst.GreaterThanInfixOperator
+	case pAst.GreaterThanInfixOperator:
+		return pAst.LessThanInfixOperator
+	case pAst.LessThanEqualInfixOperator:
+		return pAst.GreaterThanEqualInfixOperator
+	case pAst.GreaterThanEqualInfixOperator:
+		return pAst.LessThanEqualInfixOperator
+	}
+	return op
+}
+
+// VFlipPlusMinus: a + b == a - (-b) and a - b == a + (-b).
+func VFlipPlusMinus(op pAst.InfixOperator) pAst.InfixOperator {
+	if op == pAst.PlusInfixOperator {
+		return pAst.MinusInfixOperator
+	}
+	return pAst.PlusInfixOperator
+}
+
+// VInverseOp: (n op c) VInverseOp(op) c == n.
+func VInverseOp(op pAst.InfixOperator) pAst.InfixOperator {
+	switch op {
+	case pAst.PlusInfixOperator:
+		return pAst.MinusInfixOperator
+	case pAst.MinusInfixOperator:
+		return pAst.PlusInfixOperator
+	case pAst.MultiplyInfixOperator:
+		return pAst.DivideInfixOperator
+	}
+	return op
+}
+
+/*@ func negInt64
+    wrap int64
+@*/
+func negInt64(a int64) int64 { return -a }
+
+func sameF(a float64, b float64) bool { return a == b || (a != a && b != b) }
+
+/*@ func lemmaCmpReversed
+    serves C20
+    requires pAst.VIsCompare(op)
+    ensures @int pAst.VCmpInt(op, a, b) == pAst.VCmpInt(VReversedCmp(op), b, a)
+    ensures @float pAst.VCmpFloat(op, x, y) == pAst.VCmpFloat(VReversedCmp(op), y, x)
+    ensures @involution VReversedCmp(VReversedCmp(op)) == op && pAst.VIsCompare(VReversedCmp(op))
+@*/
+func lemmaCmpReversed(op pAst.InfixOperator, a int64, b int64, x float64, y float64) {}
+
+/*@ func lemmaCommutes
+    serves C20
+    requires op == pAst.PlusInfixOperator || op == pAst.MultiplyInfixOperator
+    ensures @int pAst.VIntOp(op, a, b) == pAst.VIntOp(op, b, a)
+    ensures @float sameF(pAst.VFloatOp(op, x, y), pAst.VFloatOp(op, y, x))
+@*/
+func lemmaCommutes(op pAst.InfixOperator, a int64, b int64, x float64, y float64) {}
+
+/*@ func lemmaFlipPlusMinus
+    serves C20
+    requires op == pAst.PlusInfixOperator || op == pAst.MinusInfixOperator
+    ensures @int pAst.VIntOp(op, a, b) == pAst.VIntOp(VFlipPlusMinus(op), a, negInt64(b))
+    ensures @float sameF(pAst.VFloatOp(op, x, y), pAst.VFloatOp(VFlipPlusMinus(op), x, -y))
+@*/
+func lemmaFlipPlusMinus(op pAst.InfixOperator, a int64, b int64, x float64, y float64) {}
+
+/*@ func lemmaEqualityNegation
+    serves C20
+    ensures @eq (a == b) == !(a != b)
+    ensures @neq (a != b) == !(a == b)
+@*/
+func lemmaEqualityNegation(a int64, b int64) {}
+
+/*@ func lemmaLiteralRoundTrip
+    serves C20
+    requires op == pAst.PlusInfixOperator || op == pAst.MinusInfixOperator || op == pAst.MultiplyInfixOperator
+    requires c == 42 || c == 69 || c == 4711
+    requires -(1<<40) < n && n < 1<<40
+    ensures @int !pAst.VIntOpRaises(VInverseOp(op), c) && pAst.VIntOp(VInverseOp(op), pAst.VIntOp(op, n, c), c) == n
+@*/
+func lemmaLiteralRoundTrip(op pAst.InfixOperator, n int64, c int64) {}
+
+// The transformer's tables are the ones the equations are proved for.
+
+/*@ func (self *Transformer) infixExpr
+    serves C20
+    assume-safety
+    assumepre Expression
+    ensures @original-kept len(result) >= 1
+    assert @comparison-table before-each Operator:   reversed[node.Operator], :: pAst.VIsCompare(node.Operator) && reversed[node.Operator] == VReversedCmp(node.Operator)
+    assert @plus-minus-table before-each Operator:   topLevelOp, :: (node.Operator == pAst.PlusInfixOperator || node.Operator == pAst.MinusInfixOperator) && topLevelOp == VFlipPlusMinus(node.Operator)
+    assert @equality-table before-each Operator:   innerOp, :: (node.Operator == pAst.EqualInfixOperator && innerOp == pAst.NotEqualInfixOperator) || (node.Operator == pAst.NotEqualInfixOperator && innerOp == pAst.EqualInfixOperator)
+@*/
+
+/*@ func (self *Transformer) Expression
+    serves C20
+    trusted
+    ensures result != nil
+@*/
+
+/*@ func (self *Transformer) expressionVariants
+    serves C20
+    assume-safety
+    assumepre Expression, infixExpr
+    assert @literal-inverse-table before-each Operator:   inverseOperators[idx], :: inverseOperators[idx] == VInverseOp(operators[idx]) && (operators[idx] == pAst.PlusInfixOperator || operators[idx] == pAst.MinusInfixOperator || operators[idx] == pAst.MultiplyInfixOperator) && (uselessValue == 42 || uselessValue == 69 || uselessValue == 4711)
+@*/
